@@ -207,6 +207,18 @@ func runCheck(repo, verif, prop, tier, only string, verbose, writeEvidence bool)
 	}
 	eng.addNoPanicArgContracts()
 	fcs := eng.selectContracts(prop)
+	// development aid (GOVC_LINT=1): a contract without a modifies clause makes every caller forget everything at the call; on a
+	// function small enough to be inlined that silently weakens callers that used to see through it
+	for _, fc := range eng.cs.Funcs {
+		if os.Getenv("GOVC_LINT") == "" {
+			break
+		}
+		if fc.Kind == "func" && !fc.HasMod {
+			if fn, ok := eng.funcsByKey[fc.Key]; ok && eng.smallEnough(fn) {
+				fmt.Fprintf(os.Stderr, "note: contract of %s has no modifies clause although the function is small enough to be inlined by its callers\n", shortFuncName(fc.Key))
+			}
+		}
+	}
 	var results []*FuncResult
 	var mu sync.Mutex
 	var wg sync.WaitGroup
